@@ -16,7 +16,7 @@ RULE = (
     "Non-trivial = at least 2 actions visited at least twice each; distinct by sequence hash."
 )
 ASSUMPTIONS = ["the one undefined case of the rule - an improvement over a reference of exactly 0.0 (division by zero) - is not generated; zero and negative references with any other observation are"]
-REQUIRED_COUNTERS = {"nan_observations": 300, "nan_reference_sequences": 50, "alpha_zero_sequences": 50, "special_seed_sequences": 80, "env_resets_between_observations": 500, "zero_reference_steps": 200, "negative_reference_steps": 200, "twins_seeded_through_setter": 100, "learn_steps": 2000, "policy_calls": 2000, "reward_calls": 2000, "improving_steps": 200, "twin_pairs": 50}
+REQUIRED_COUNTERS = {"chosen_actions_never_executed": 500, "nan_observations": 300, "nan_reference_sequences": 50, "alpha_zero_sequences": 50, "special_seed_sequences": 80, "env_resets_between_observations": 500, "zero_reference_steps": 200, "negative_reference_steps": 200, "twins_seeded_through_setter": 100, "learn_steps": 2000, "policy_calls": 2000, "reward_calls": 2000, "improving_steps": 200, "twin_pairs": 50}
 SHARDS = {"quick": 8, "thorough": 16}
 
 
@@ -75,8 +75,15 @@ def one_sequence(rng, out):
         out["violations"].append({"msg": msg, "witness": dict(desc, trace=trace[-6:])})
 
     for t in range(steps):
+        q_before, n_before = [float(x) for x in agent.Q], list(agent.actions_count)
         a = agent.policy(0)
         a2 = twin.policy(0)
+        if [float(x) for x in agent.Q] != q_before or list(agent.actions_count) != n_before:
+            return bad(f"policy() changed the agent's estimates or visit counts (Q {q_before} -> {[float(x) for x in agent.Q]}, counts {n_before} -> {list(agent.actions_count)}): only learn() may")
+        if rng.random() < 0.08:
+            # the chosen action is never executed (the session ended, or its batch failed): nothing is learnt from it
+            c["chosen_actions_never_executed"] = c.get("chosen_actions_never_executed", 0) + 1
+            continue
         c["policy_calls"] = c.get("policy_calls", 0) + 1
         if not (isinstance(a, (int, np.integer)) and 0 <= a < n):
             return bad(f"policy returned {a!r}, not a valid action index in range({n})")
